@@ -21,6 +21,7 @@ type PropConfig struct {
 	Replay     map[string]string `json:"replay"` // function key substring -> replay driver
 	Assumption []string          `json:"assumptions"`
 	MinObl     int               `json:"min_obligations"`
+	AxCheck    []string          `json:"axcheck"` // spec files whose axioms are validated (bounded) against the real library on every run
 }
 
 const verifDir = "/verif"
@@ -33,7 +34,15 @@ func main() {
 	list := flag.Bool("list", false, "list targets")
 	timeout := flag.Int("timeout", 0, "solver timeout (s)")
 	noReplay := flag.Bool("noreplay", false, "do not run replays")
+	axcheck := flag.String("axcheck", "", "validate the axioms of this spec file against the real path/filepath (bounded) and exit")
 	flag.Parse()
+	if *axcheck != "" {
+		os.Setenv("GOVC_AXVERBOSE", "1")
+		if n := runAxCheck(*axcheck, 7, 5); n > 0 {
+			os.Exit(1)
+		}
+		return
+	}
 	if *tier == "" {
 		*tier = "quick"
 	}
@@ -56,6 +65,10 @@ func main() {
 	if cfg == nil {
 		fatal("unknown property %q", *prop)
 	}
+	axFailed := 0
+	for _, f := range cfg.AxCheck {
+		axFailed += runAxCheck(filepath.Join(verifDir, f), 6, 4)
+	}
 	lib := NewSpecLib()
 	if err := lib.LoadAllSpecs(filepath.Join(verifDir, "specs")); err != nil {
 		fatal("%v", err)
@@ -69,6 +82,9 @@ func main() {
 	ex.callSites = map[string][]string{}
 	ex.findSentinels()
 	ex.errs = append(ex.errs, lib.LintGhostFrames()...)
+	if axFailed > 0 {
+		ex.errs = append(ex.errs, fmt.Sprintf("%d assumed axiom(s) are false for the real library (see AXCHECK-FAILED lines): every proof that uses them is void", axFailed))
+	}
 	ex.ApplySchemas()
 	ex.checkImmutable()
 	fns := ex.targets(*only)
